@@ -61,6 +61,150 @@ let kind_tag = function
 
 let core_steps steps = List.filter_map (function Core s -> Some s | ClearLimit (i, p, _) -> Some (Clear (i, p))) steps
 
+
+(* ---------- coverage buckets: which branch of the model a mutating step takes ----------
+   Re-walks the model heap along the key (navigation only, no writes) and names the case of
+   insert / insertInLeaf / insertInBranch, deleteLeaf / deleteBranch, clearPrefixAtNode,
+   clearPrefixLimit* / deleteNodesLimit at which the operation lands, whether the landing node
+   belongs to the handle's generation (written in place: "own") or to an older one (copied:
+   "cow"), and the outcome of handleDeletion.  Only used for the tag histogram. *)
+let ilen l = int_of_nat (length l)
+let own_tag g (c : cell) = if c.c_gen = g then "own" else "cow"
+let hd_tag (c : cell) (kids : addr option list) (sv : value option) =
+  match int_of_nat (count_kids kids), sv with
+  | 0, Some _ -> "hd-to-leaf" | 1, None -> "hd-merge-child" | 0, None -> "hd-empty-branch" | _ -> "hd-keep"
+
+let rec put_cov hp g v1 (p : addr option) (k : key) (v : value) depth : string list =
+  match p with
+  | None -> ["put:new-leaf-at-nil-root"]
+  | Some a ->
+    (match hp a with
+     | None -> ["put:dangling"]
+     | Some c ->
+       let o = own_tag g c in
+       let same = (eqb c.c_mbh (must_hash v1 v)) && sv_eqb c.c_sv v in
+       if not c.c_isb then begin
+         if key_eqb c.c_pk k then [if same then "put:leaf-same-value-noop" else "put:leaf-replace-" ^ o
+                                   ^ (if sv_eqb c.c_sv v then "-mbh-only" else "")]
+         else
+           let n = int_of_nat (cpl k c.c_pk) in
+           if ilen k = n then ["put:leaf-key-is-prefix-of-leaf-" ^ o]
+           else if ilen c.c_pk = n then ["put:leaf-is-prefix-of-key"]
+           else ["put:leaf-diverge-" ^ o]
+       end else begin
+         if key_eqb k c.c_pk then [if same then "put:branch-same-value-noop" else "put:branch-value-" ^ o
+                                   ^ (if sv_eqb c.c_sv v then "-mbh-only" else "")]
+         else if is_prefix c.c_pk k then begin
+           let n = cpl k c.c_pk in
+           let idx = nth n k O in
+           match nth idx c.c_kids None with
+           | None -> ["put:branch-new-child-" ^ o]
+           | Some ch ->
+             let sub = put_cov hp g v1 (Some ch) (skipn (S n) k) v (depth + 1) in
+             if List.exists (fun t -> String.length t > 5 && String.sub t (String.length t - 5) 5 = "-noop") sub then sub
+             else ("put:branch-descend-" ^ o) :: sub
+         end else
+           [(if ilen k <= int_of_nat (cpl k c.c_pk) then "put:branch-split-value-" else "put:branch-split-leaf-") ^ o]
+       end)
+
+let rec del_cov hp g fd (p : addr option) (k : key) : string list =
+  match p with
+  | None -> ["del:nil"]
+  | Some a ->
+    (match hp a with
+     | None -> ["del:dangling"]
+     | Some c ->
+       let o = own_tag g c in
+       if not c.c_isb then
+         (if ilen k > 0 && not (key_eqb k c.c_pk) then ["del:leaf-miss"] else ["del:leaf-" ^ o])
+       else if ilen k = 0 || key_eqb c.c_pk k then
+         ["del:branch-value-" ^ o; "del:" ^ hd_tag c c.c_kids None]
+       else begin
+         let n = cpl c.c_pk k in
+         if int_of_nat n < ilen c.c_pk then ["del:branch-diverge-miss"]
+         else
+           let idx = nth n k O in
+           let ch = nth idx c.c_kids None in
+           if fd && ilen (skipn (S n) k) = 0 && kid_pk_nonempty hp ch then ["del:exhausted-key-miss"]
+           else
+             let sub = del_cov hp g fd ch (skipn (S n) k) in
+             if List.exists (fun t -> List.mem t ["del:nil"; "del:leaf-miss"; "del:branch-diverge-miss"; "del:exhausted-key-miss"]) sub
+             then sub
+             else begin
+               (* the child slot after the deletion: gone only when a leaf (or everything) was removed *)
+               let gone = List.mem "del:leaf-own" sub || List.mem "del:leaf-cow" sub in
+               let kids' = if gone && not (List.exists (fun t -> t = "del:branch-descend-own" || t = "del:branch-descend-cow") sub)
+                 then set_nth idx None c.c_kids else c.c_kids in
+               ("del:branch-descend-" ^ o) :: ("del:" ^ hd_tag c kids' c.c_sv) :: sub
+             end
+       end)
+
+let rec clear_cov hp g (p : addr option) (prefix : key) : string list =
+  match p with
+  | None -> ["clear:nil"]
+  | Some a ->
+    (match hp a with
+     | None -> ["clear:dangling"]
+     | Some c ->
+       let o = own_tag g c in
+       let pk = c.c_pk in
+       if is_prefix prefix pk then [if c.c_isb then "clear:whole-branch" else "clear:whole-leaf"]
+       else if not c.c_isb then ["clear:leaf-miss"]
+       else if ilen prefix = ilen pk + 1 && is_prefix (removelast prefix) pk then begin
+         let idx = nth (length pk) prefix O in
+         match nth idx c.c_kids None with
+         | None -> ["clear:child-slot-empty"]
+         | Some _ -> ["clear:child-slot-" ^ o; "clear:" ^ hd_tag c (set_nth idx None c.c_kids) c.c_sv]
+       end
+       else if ilen prefix <= ilen pk || int_of_nat (cpl pk prefix) < ilen pk then ["clear:branch-miss"]
+       else begin
+         let idx = nth (length pk) prefix O in
+         let sub = clear_cov hp g (nth idx c.c_kids None) (skipn (S (length pk)) prefix) in
+         if List.exists (fun t -> List.mem t ["clear:nil"; "clear:leaf-miss"; "clear:child-slot-empty"; "clear:branch-miss"]) sub then sub
+         else ("clear:descend-" ^ o) :: sub
+       end)
+
+let rec limit_cov hp g (p : addr option) (prefix : key) : string list =
+  match p with
+  | None -> ["limit:nil"]
+  | Some a ->
+    (match hp a with
+     | None -> ["limit:dangling"]
+     | Some c ->
+       let o = own_tag g c in
+       let pk = c.c_pk in
+       if not c.c_isb then [if is_prefix prefix pk then "limit:leaf" else "limit:leaf-miss"]
+       else if is_prefix prefix pk then ["limit:delete-nodes-at-branch-" ^ o]
+       else if ilen prefix = ilen pk + 1 && is_prefix (removelast prefix) pk then begin
+         let idx = nth (length pk) prefix O in
+         match nth idx c.c_kids None with
+         | None -> ["limit:child-slot-empty"]
+         | Some ch -> ["limit:child-slot-" ^ o ^ (match hp ch with Some cc when cc.c_isb -> "-branch" | _ -> "-leaf")]
+       end
+       else if ilen prefix <= ilen pk || int_of_nat (cpl pk prefix) < ilen pk then ["limit:branch-miss"]
+       else begin
+         let idx = nth (length pk) prefix O in
+         ("limit:descend-" ^ o) :: limit_cov hp g (nth idx c.c_kids None) (skipn (S (length pk)) prefix)
+       end)
+
+let branch_cov fd (st : state) (s : xstep) : string list =
+  let hp = st.s_mem.hp in
+  let h i = nth_error st.s_hs i in
+  match s with
+  | Core (Put (i, k, v)) ->
+    (match h i with Some hd -> put_cov hp hd.h_gen hd.h_v1 hd.h_root (key_le_to_nibbles k) v 0 | None -> [])
+  | Core (Del (i, k)) ->
+    (match h i with Some hd -> del_cov hp hd.h_gen fd hd.h_root (key_le_to_nibbles k) | None -> [])
+  | Core (Clear (i, p)) ->
+    (match h i with
+     | Some hd -> if p = [] then ["clear:everything"] else clear_cov hp hd.h_gen hd.h_root (trim_zero_suffix (key_le_to_nibbles p))
+     | None -> [])
+  | ClearLimit (i, p, l) ->
+    (match h i with
+     | Some hd -> if l = n_of_int 0 then ["limit:zero"] else limit_cov hp hd.h_gen hd.h_root (trim_zero_suffix (key_le_to_nibbles p))
+     | None -> [])
+  | _ -> []
+
 (* The isolation predicate on the implementation's observables.
    kinds.(k) = (target handle or -1, snapshot source or -1, printable token) for step k. *)
 let isolation_pred ~frozen ~model_panic_at (kinds : (int * int * string) array) (obs : string) : string =
@@ -165,9 +309,11 @@ let check_main inp obs0 =
   let st0, o0 = observe fg init_state in
   Buffer.add_string buf (String.concat "/" ("init" :: o0));
   let model_panic_at = ref (-1) in
+  let cov = ref [] in
   let rec go st prev k = function
     | [] -> ()
     | s :: r ->
+      cov := branch_cov fd st s @ !cov;
       let ((st1, res), extra) = xexec hh true fd st s in
       Buffer.add_char buf ' ';
       (match res with
@@ -198,10 +344,179 @@ let check_main inp obs0 =
     f false steps in
   let kinds_t = List.sort_uniq compare (List.map kind_tag steps) in
   let tags = String.concat "," (
-    kinds_t @ [Printf.sprintf "handles-%d" (1 + nsnap)]
+    kinds_t @ List.sort_uniq compare !cov @ [Printf.sprintf "handles-%d" (1 + nsnap)]
     @ (if frozen then ["frozen-parents"] else ["parent-mutated"])
     @ [Printf.sprintf "tree-delete-fix-%b-get-fix-%b" fd fg]
     @ (if !model_panic_at >= 0 then ["version-regress-panic"] else [])) in
+  { prop_ok; model_eq; nontrivial = (nsnap >= 1 && mut_after_snap); finding = "-"; tags;
+    detail = (if prop_ok && model_eq then "" else if not prop_ok then "isolation: " ^ why else first_diff model obs) }
+
+
+(* ---------- fork histories with child tries (P/E/K steps) ----------
+   A child trie is one more handle of the heap model (coq/C03/ModelY.v, theorems
+   C03_isolation_child_tries / C03_child_snapshot_view).  InMemoryTrie.Snapshot() gives every child
+   trie of the source a new trie object of the next generation whose root is a COPY of the source's
+   root node and whose version is the parent's: step SnapCopy.  PutIntoChild is AdoptVer
+   (child.version = t.version), Hash, Put, Hash on the child handle followed by Put of the child
+   root hash in the parent trie; ClearFromChild is Hash, Delete (, Hash) on the child handle and
+   Put/Delete in the parent; a child trie that does not exist yet starts from step NewTrie. *)
+let child_prefix = bytes_of_string ":child_storage:default:"
+let child_keys = ["aa"; "bb"]
+
+let check_kids inp obs0 =
+  let fd, fg, obs = split_probe obs0 in
+  let toks = split_ws inp in
+  let toks = (match toks with "U" :: r -> r | l -> l) in
+  let main : int list ref = ref [0] in                      (* Go handle -> model handle (reversed) *)
+  let mi j = List.nth (List.rev !main) j in
+  let kids : (int * string, int) Hashtbl.t = Hashtbl.create 8 in
+  let ycore : ystep list ref = ref [] in
+  let panic_at = ref (-1) in
+  let tagl = ref [] in
+  let tag t = if not (List.mem t !tagl) then tagl := t :: !tagl in
+  let nh st = List.length st.s_hs in
+  let handle st i = List.nth st.s_hs i in
+  (* every step goes through the extracted model: [xexec] for the steps of Model.v, [yexec] for
+     NewTrie / SnapCopy / AdoptVer of ModelY.v *)
+  let run st (l : ystep list) : state * res * (n * bool) option =
+    List.fold_left (fun (st, res, ex) s ->
+      if res <> ROk then (st, res, ex) else begin
+        ycore := s :: !ycore;
+        match s with
+        | Y xs ->
+          List.iter (fun t -> tag t) (branch_cov fd st xs);
+          let ((st1, r), e) = xexec hh true fd st xs in
+          (st1, r, (match e with Some _ -> e | None -> ex))
+        | _ -> let (st1, r) = yexec hh true fd st s in (st1, r, ex) end) (st, ROk, None) l in
+  let c s = Y (Core s) in
+  let root_hash st i = snd (hash_handle hh st.s_mem (handle st i)) in
+  let main_has st i c =
+    let key = child_prefix @ bytes_of_hex c in
+    List.exists (fun (k, _) -> k = key) (entries_handle fg st.s_mem (handle st i)) in
+  (* child tries whose key left the parent trie are gone *)
+  let prune st =
+    List.iteri (fun j m ->
+      List.iter (fun c -> if Hashtbl.mem kids (j, c) && not (main_has st m c) then Hashtbl.remove kids (j, c)) child_keys)
+      (List.rev !main) in
+  let observe_all st =
+    let m = ref st.s_mem in
+    let one i =
+      let hd = handle st i in
+      let (m1, hv) = hash_handle hh !m hd in
+      m := m1; obs_string hv (entries_handle fg !m hd) in
+    let obs = List.mapi (fun j i ->
+      let o = one i in
+      o ^ String.concat "" (List.map (fun c ->
+        "|" ^ c ^ "=" ^ (match Hashtbl.find_opt kids (j, c) with Some ci -> one ci | None -> "-")) child_keys))
+      (List.rev !main) in
+    ({ st with s_mem = !m }, obs) in
+  let buf = Buffer.create 1024 in
+  let st0, o0 = observe_all init_state in
+  Buffer.add_string buf (String.concat "/" ("init" :: o0));
+  let kinds = ref [] in
+  let rec go st prev k = function
+    | [] -> ()
+    | tok :: r ->
+      let body = String.sub tok 1 (String.length tok - 1) in
+      let f = String.split_on_char ':' body in
+      let j = int_of_string ("0x" ^ List.hd f) in
+      if j >= List.length !main then Buffer.add_string buf " bad" else begin
+      let m = mi j in
+      let nm = nat_of_int m in
+      let target = ref (-1) and snapsrc = ref (-1) in
+      let resstr = ref "ok" in
+      let (st1, res, extra) =
+        (match tok.[0], f with
+         | 's', [_] ->
+           snapsrc := j; tag "snapshot";
+           let (st1, res, e) = run st [c (Snap nm)] in
+           if res <> ROk then (st1, res, e) else begin
+             let nj = List.length !main in
+             main := (nh st1 - 1) :: !main;
+             List.fold_left (fun (st, res, e) ck ->
+               match Hashtbl.find_opt kids (j, ck) with
+               | Some ci when res = ROk ->
+                 tag "child-snapshot";
+                 let (st2, res2, _) = run st [SnapCopy (nat_of_int ci, (handle st m).h_v1)] in
+                 Hashtbl.replace kids (nj, ck) (nh st2 - 1);
+                 (st2, res2, e)
+               | _ -> (st, res, e)) (st1, res, e) child_keys end
+         | 'p', [_; ky; v] -> target := j; tag "put"; run st [c (Put (nm, bytes_of_hex ky, bytes_of_hex v))]
+         | 'd', [_; ky] -> target := j; tag "delete"; run st [c (Del (nm, bytes_of_hex ky))]
+         | 'c', [_; p] -> target := j; tag "clearprefix"; run st [c (Clear (nm, bytes_of_hex p))]
+         | 'l', [_; p; l] -> target := j; tag "clearprefixlimit"; run st [Y (ClearLimit (nm, bytes_of_hex p, n_of_hex l))]
+         | 'v', [_; v] -> tag (if v = "1" then "setversion-v1" else "setversion-v0"); run st [c (SetVer (nm, v = "1"))]
+         | 'w', [_] ->
+           tag "writedirty";
+           run st (c (Commit nm) :: List.filter_map (fun ck ->
+             match Hashtbl.find_opt kids (j, ck) with Some ci -> Some (c (Commit (nat_of_int ci))) | None -> None) child_keys)
+         | 'P', [_; ck; ky; v] ->
+           target := j; tag "child-put";
+           let st, ci =
+             (match Hashtbl.find_opt kids (j, ck) with
+              | Some ci -> (st, ci)
+              | None ->
+                tag "child-created";
+                let (st1, _, _) = run st [NewTrie] in
+                let ci = nh st1 - 1 in
+                Hashtbl.replace kids (j, ck) ci;
+                (st1, ci)) in
+           let nc = nat_of_int ci in
+           let (st1, res, e) = run st [AdoptVer (nc, nm); c (HashOp nc); c (Put (nc, bytes_of_hex ky, bytes_of_hex v)); c (HashOp nc)] in
+           if res <> ROk then (st1, res, e)
+           else run st1 [c (Put (nm, child_prefix @ bytes_of_hex ck, root_hash st1 ci))]
+         | 'E', [_; ck; ky] ->
+           target := j; tag "child-clear";
+           (match Hashtbl.find_opt kids (j, ck) with
+            | None -> tag "child-missing"; resstr := "ok:nochild"; (st, ROk, None)
+            | Some ci ->
+              let nc = nat_of_int ci in
+              let (st1, res, e) = run st [c (HashOp nc); c (Del (nc, bytes_of_hex ky))] in
+              if res <> ROk then (st1, res, e)
+              else if (handle st1 ci).h_root = None then begin
+                tag "child-emptied";
+                Hashtbl.remove kids (j, ck);
+                run st1 [c (Del (nm, child_prefix @ bytes_of_hex ck))] end
+              else
+                let (st2, res2, e2) = run st1 [c (HashOp nc)] in
+                if res2 <> ROk then (st2, res2, e2)
+                else run st2 [c (Put (nm, child_prefix @ bytes_of_hex ck, root_hash st2 ci))])
+         | 'K', [_; ck] ->
+           target := j; tag "child-delete";
+           Hashtbl.remove kids (j, ck);
+           run st [c (Del (nm, child_prefix @ bytes_of_hex ck))]
+         | _ -> fail "C03: bad step %s" tok) in
+      kinds := (!target, !snapsrc, tok) :: !kinds;
+      Buffer.add_char buf ' ';
+      (match res with
+       | ROk ->
+         prune st1;
+         let st2, cur = observe_all st1 in
+         let rs = (match extra with
+           | Some (d, a) -> "ok:" ^ hex_of_n d ^ ":" ^ (if a then "1" else "0")
+           | None -> !resstr) in
+         Buffer.add_string buf (String.concat "/" (rs :: render prev cur));
+         go st2 cur (k + 1) r
+       | RPanic -> panic_at := k; Buffer.add_string buf "panic"
+       | RBad -> Buffer.add_string buf "bad")
+      end
+  in
+  go st0 o0 0 toks;
+  let model = Buffer.contents buf in
+  let frozen = yfrozen_parents (List.rev !ycore) in
+  let why = isolation_pred ~frozen ~model_panic_at:!panic_at (Array.of_list (List.rev !kinds)) obs in
+  let prop_ok = (why = "") in
+  let model_eq = (model = obs) in
+  let nsnap = List.length (List.filter (fun t -> t.[0] = 's') toks) in
+  let mut_after_snap =
+    let rec f seen = function
+      | [] -> false
+      | t :: r -> if t.[0] = 's' then f true r else (seen && String.contains "pdclPEK" t.[0]) || f seen r in
+    f false toks in
+  let tags = String.concat "," (
+    ("child-tries" :: List.sort compare !tagl) @ [Printf.sprintf "handles-%d" (1 + nsnap)]
+    @ (if frozen then ["frozen-parents"] else ["parent-mutated"])
+    @ (if !panic_at >= 0 then ["version-regress-panic"] else [])) in
   { prop_ok; model_eq; nontrivial = (nsnap >= 1 && mut_after_snap); finding = "-"; tags;
     detail = (if prop_ok && model_eq then "" else if not prop_ok then "isolation: " ^ why else first_diff model obs) }
 
@@ -229,11 +544,13 @@ let check_state inp obs0 =
         if Hashtbl.find_opt prev_r root = Some o then "=" else (Hashtbl.replace prev_r root o; o)) (List.rev !roots) in
   let stored : (int, string) Hashtbl.t = Hashtbl.create 16 in     (* handle -> root at its last StoreTrie *)
   let core = ref [] in                                            (* the model steps performed, in order *)
+  let cov = ref [] in
   let kinds = ref [] in
   let run_core st (l : step list) =
     List.fold_left (fun (st, res) s ->
       if res <> ROk then (st, res) else begin
         core := s :: !core;
+        cov := branch_cov fd st (Core s) @ !cov;
         let (st1, r) = exec hh true fd st s in (st1, r) end) (st, ROk) l in
   let root_of st k =
     let hd = List.nth st.s_hs k in
@@ -306,14 +623,19 @@ let check_state inp obs0 =
       | t :: r -> if t.[0] = 'R' || t.[0] = 'X' then f true r else (dropped && t.[0] = 'T') || f dropped r in
     f false toks in
   let tags = String.concat "," (
-    ["state-harness"; Printf.sprintf "state-blocks-%d" nT]
+    ["state-harness"; Printf.sprintf "state-blocks-%d" nT] @ List.sort_uniq compare !cov
     @ (if reloads then ["state-reload-from-db"] else [])
     @ (if frozen then ["frozen-parents"] else ["parent-mutated"])
     @ (if Hashtbl.length tries < Hashtbl.length stored then ["state-same-root-stored-twice"] else [])) in
   { prop_ok; model_eq; nontrivial = (nT >= 1); finding = "-"; tags;
     detail = (if prop_ok && model_eq then "" else if not prop_ok then "isolation: " ^ why else first_diff model obs) }
 
+let has_child_ops inp =
+  List.exists (fun t -> t.[0] = 'P' || t.[0] = 'E' || t.[0] = 'K') (split_ws inp)
+
 let check inp obs =
-  if String.length inp >= 5 && String.sub inp 0 5 = "state" then check_state inp obs else check_main inp obs
+  if String.length inp >= 5 && String.sub inp 0 5 = "state" then check_state inp obs
+  else if has_child_ops inp then check_kids inp obs
+  else check_main inp obs
 
 let () = run_driver check
